@@ -4,10 +4,10 @@ CONSTANTS
     MaxAge = 100000000
     MaxDt = 2
     MaxBDt = 2
-    RestoreKeepsEpisodeStart = TRUE
-    LeaveOKStartsDuration = TRUE
     BatchGaps = {0, 1}
     MaxBatch = 3
+    QCap = 2
+    Variant = {}
 INVARIANTS
     Verdict
 CONSTRAINT HW
